@@ -1,4 +1,5 @@
 import Tumfl.Props.C05
+import Tumfl.Props.C20
 #print axioms Tumfl.Props.C05_model_reads
 #print axioms Tumfl.Props.C05_reference_reads
 #print axioms Tumfl.Props.C05_same_value
@@ -6,3 +7,5 @@ import Tumfl.Props.C05
 #print axioms Tumfl.Props.C05_terminates
 #print axioms Tumfl.Inst.escapeCodes_facts
 #print axioms Tumfl.Inst.escChar_in_table
+#print axioms Tumfl.Props.C05_long_brackets
+#print axioms Tumfl.Props.C05_comments
